@@ -295,7 +295,11 @@ def run_generic(prop, tier, seed, items, job, extra=(), engine="e3", level="mode
         "transitions": max(tot["transitions"], 1),
         "traces_validated_against_impl": tot["validated"],
         "samples": samples or [{"note": "no sample"}],
-        "exhaustive": capped == 0,
+        # any cap that was hit (time budget, per-item state cap, decision-point cap,
+        # solution cap) makes the run non-exhaustive; the cap counters are in
+        # outcome_classes
+        "exhaustive": capped == 0 and not any(
+            v for k, v in stats.items() if k.endswith("cap_hit")),
         "evaluations": max(tot["evaluations"], tot["items"]),
         "distinct_nontrivial": len(distinct),
         "rule": rule,
